@@ -25,6 +25,12 @@ def strip(nodes):
             continue
         if n["k"] == "tag":
             out.append(dict(n, kids=strip(n["kids"])))
+        elif n["k"] == "list":
+            out.append(dict(n, kids=strip(n["kids"])))
+        elif n["k"] == "tfy":
+            # metadata that arrives through an expansion is stripped from the expansion
+            res = strip([n["res"]])
+            out.append(dict(n, res=res[0] if res else {"k": "list", "t": "taglist", "kids": []}))
         else:
             out.append(n)
     return out
@@ -35,18 +41,27 @@ TFY_LEAVES = [
     {"k": "tfy", "res": {"k": "list", "t": "taglist", "kids": [{"k": "text", "s": "e1"}, {"k": "text", "s": "e2"}]}},
     {"k": "tfy", "res": {"k": "list", "t": "taglist", "kids": [{"k": "text", "s": "f1"}, {"k": "dep", "name": "td", "version": "1"}, {"k": "tag", "name": "b", "ws": False, "attrs": [], "kids": []}]}},
     {"k": "tfy", "res": {"k": "text", "s": "single"}},
+    {"k": "tfy", "res": {"k": "list", "t": "taglist", "kids": [{"k": "text", "s": "g1"}, {"k": "dep", "name": "td", "version": "2"}]}},
+    {"k": "tfy", "res": {"k": "list", "t": "taglist", "kids": [{"k": "dep", "name": "td", "version": "3"}]}},
+    {"k": "tfy", "res": {"k": "dep", "name": "te", "version": "1", "head": "<meta name='e'>"}},
+    {"k": "tfy", "res": {"k": "list", "t": "taglist", "kids": [{"k": "meta"}, {"k": "html", "s": "<i>g2</i>"}, {"k": "headc", "kids": [{"k": "text", "s": "hc2"}]}]}},
+    {"k": "tfy", "res": {"k": "tag", "name": "p", "ws": True, "attrs": [], "kids": [{"k": "text", "s": "g3"}, {"k": "dep", "name": "tf", "version": "1"}]}},
 ]
 
 
-def _add_tfy(nodes, pick):
+def _add_tfy(nodes, pick, top=True):
     """plant tagifiable objects (expanding to 0, 1, 2 or 3 nodes) at generated positions"""
     out = []
     for i, n in enumerate(nodes):
         if n["k"] == "tag":
-            n = dict(n, kids=_add_tfy(n["kids"], pick // 3 + i))
+            n = dict(n, kids=_add_tfy(n["kids"], pick // 3 + i, False))
         if (pick + i) % 4 == 0:
             out.append(TFY_LEAVES[(pick // 2 + i) % len(TFY_LEAVES)])
+        if (pick + i) % 7 == 3 and n["k"] != "tag" and not top:
+            continue  # the object takes the place of a leaf (it may then be the only child)
         out.append(n)
+    if not nodes and not top and pick % 3 == 0:
+        out.append(TFY_LEAVES[(pick // 2) % len(TFY_LEAVES)])
     return out
 
 
@@ -176,7 +191,13 @@ def body(case, note):
         base = tlo.get_html_string(indent, eol)
         idx = (case["pick"] // 7) % (len(t.children) + 1)
         node = h.MetadataNode() if case["pick"] % 2 else h.HTMLDependency("ins", "1.0", head="<x>")
-        t.insert(idx, node)
+        how = (case["pick"] // 3) % 3
+        if how == 0:
+            t.insert(idx, node)
+        elif how == 1:
+            t.children[idx:idx] = [node]  # the child list is a public, mutable list
+        else:
+            t.children.insert(idx, node)
         check(tlo.get_html_string(indent, eol) == base, "inserting a metadata node changed the markup", base, tlo.get_html_string(indent, eol))
         check(t.children[idx] is node, "insert() did not place the node at the index")
         del t.children[idx]
